@@ -19,14 +19,28 @@ from mc.univ import t2, t3, mktensor, tree_content, tree_features, RANK_IDS
 from mc import ref_c09 as R
 
 LEVEL = "exploration"
-RULE = ("every tree spec of the universe x every form (tensor with declared shape, tensor with estimated shape, "
+RULE = ("every tree spec of the universe (x leaf default in the non-zero-default family) x every form (tensor with declared shape, tensor with estimated shape, "
         "raw fiber tree; the empty tree also via Tensor(rank_ids=...)) x every transform group is one case; inside a "
         "case every parameter choice of the group (permutation, depth, levels, style, merge function, step, "
         "coordinate function) is executed.  Specs are distinct by construction.  A case is non-trivial when the "
         "tree holds at least two non-default points (so that a point can be misplaced); merge cases additionally "
         "count collisions, split cases partitions, in the path counters")
 ASSUMPTIONS = [
-    "coordinates 0..N-1 per rank (N<=3), depth 2-4, leaf default 0, position-tagged positive int leaf values",
+    "coordinates 0..N-1 per rank (N<=3), depth 2-4, leaf default 0, position-tagged positive int leaf values "
+    "(the non-zero-default family below: leaf default 7 or -1)",
+    "non-zero-default family (NZ universes): leaf cells absent / stored 0 / explicit default / position-tagged value "
+    "(never 0, 7 or -1); a point is a stored leaf whose value differs from the leaf default, so a stored 0 is a point and "
+    "must be moved like any other; every leaf fiber (also an empty one) is built with the leaf default; the raw-fiber "
+    "form is not generated for trees holding an empty fiber above the leaf rank (an unowned empty interior fiber has no "
+    "defined leaf default - documented guess 0); Tensor results must report the original leaf default; only the groups "
+    "swizzle/swap, flatten/unflatten and merge are driven",
+    "merge in the non-zero-default family: only points are reduced (a stored payload equal to the leaf default is not a "
+    "point); sums / maxima of the values used never equal 7 or -1",
+    "three sub-families of the non-zero-default / empty-interior-fiber family deviate on the unchanged tree and are kept out "
+    "of run() (module constant PENDING, reported to the lead; `./check C09 --only pending` runs exactly them): "
+    "flatten/merge with levels >= 3 over a stored empty interior fiber when the leaf default is not 0 or the style is "
+    "linear / pair; mergeRanks with colliding sub-fibers when merge_fn(value, default) != value; mergeRanks with "
+    "colliding sub-fibers and levels >= 2 when the leaf default is not 0",
     "style 'linear' is only generated where the flattened lower ranks have an authoritative shape (declared tensor "
     "shape / Fiber(shape=)), which Fiber._flattenCoords documents as required",
     "flattenRanks with 'absolute'/'relative' is only judged when no two *stored* elements of the lowest flattened "
@@ -52,6 +66,23 @@ ASSUMPTIONS = [
 ]
 
 GROUPS = ("swizzle", "flatten", "merge", "split", "update")
+
+# Sub-families of the non-zero-default / empty-interior-fiber family that deviate on the unchanged tree and are kept out
+# of run() until the lead decides (they run with `./check C09 --only pending`).  Removing a name from this set moves
+# its sub-cases into run() (both tiers):
+#  placeholder-default   flattenRanks / mergeRanks with levels >= 3 over a tree holding a stored empty fiber between the
+#                        root and the leaf rank: Fiber._mergeRanksHelper takes default and shape of the merged rank from
+#                        its LAST child, and a child merged from an empty fiber carries the placeholders Payload(0) /
+#                        shape None / an active range of the wrong nesting; the next level up iterates the fiber with
+#                        default 0 and drops stored leaves equal to 0 (leaf default != 0), asserts in _flattenCoords
+#                        (style linear, any default), or fails comparing an int with a tuple range start (style pair,
+#                        empty fibers at two different ranks, any default)
+#  phantom-default       mergeRanks where two sub-fibers (not leaves) collide: Fiber._mergeToFibertree feeds the union's
+#                        padding (the default of an operand that is absent at a coordinate) to merge_fn; visible when
+#                        merge_fn(value, default) != value (sum with default 7 / -1, max with default 7 over a stored 0)
+#  merged-fiber-default  same collision, levels >= 2: the fiber made by Fiber._mergeToFibertree has no default (0), the
+#                        next level up drops its leaves equal to 0
+PENDING = {"placeholder-default", "phantom-default", "merged-fiber-default"}
 
 
 # ---------------------------------------------------------------------------
@@ -87,8 +118,29 @@ def mkshaped(spec, dims, prefix=()):
     return Fiber(cs, ps, shape=n)
 
 
-def build(spec, dims, form):
+def mknz(spec, dims, default, shaped, prefix=()):
+    """Raw fiber tree over the cells '-', '0' (explicit default), 'z' (stored 0), 'v'; every leaf fiber (also an
+    empty one) is made with the leaf default."""
+    n = dims[0]
+    kw = {"shape": n} if shaped else {}
+    if len(dims) == 1:
+        cs = [i for i, x in enumerate(spec) if x != '-']
+        return Fiber(cs, [R.cellval(prefix + (i,), spec[i], default) for i in cs], default=default, **kw)
+    cs = [i for i, x in enumerate(spec) if x is not None]
+    return Fiber(cs, [mknz(spec[i], dims[1:], default, shaped, prefix + (i,)) for i in cs], **kw)
+
+
+def build(spec, dims, form, default=0):
     depth = len(dims)
+    if default != 0:
+        ids = RANK_IDS[:depth]
+        if form == "ts":
+            return Tensor.fromFiber(ids, mknz(spec, dims, default, False), shape=list(dims), default=default)
+        if form == "te":
+            return Tensor.fromFiber(ids, mknz(spec, dims, default, False), default=default)
+        if form == "f":
+            return mknz(spec, dims, default, True)
+        raise ValueError(form)
     if form == "ts":
         return mktensor(spec, depth, shape=list(dims))
     if form == "te":
@@ -114,12 +166,17 @@ def _has_shape(form):
 # the checker used by every group
 
 class Chk:
-    def __init__(self, spec, dims, form):
+    def __init__(self, spec, dims, form, default=0, pending=False):
         self.spec, self.dims, self.form = spec, tuple(dims), form
+        self.default, self.pending = default, pending
         self.depth = len(dims)
-        self.C = tree_content(spec, self.depth)
+        self.C = self.tc(spec, self.depth)
         self.stored = R.stored_points(spec, self.depth)
         self.base = tree_features(spec, self.depth) | {"form:" + form}
+        if default != 0:
+            self.base.add("default:%d" % default)
+            if any(v == 0 for v in self.C.values()):
+                self.base.add("stored_zero_value")
         self.base.add("shape:declared" if _has_shape(form) else "shape:estimated")
         if not self.stored:
             self.base.add("no_stored_leaf")
@@ -129,17 +186,40 @@ class Chk:
         self.desc = ""
         self.par = ""      # exact parameters of the call being judged (recorded with a violation)
 
+    def tc(self, spec, depth):
+        """Reference content of a (sub-)spec; only its emptiness is used for sub-specs."""
+        if self.default == 0:
+            return tree_content(spec, depth)
+        return R.spec_content(spec, depth, self.default)
+
     def fresh(self):
-        return build(self.spec, self.dims, self.form)
+        return build(self.spec, self.dims, self.form, self.default)
 
     def empties_at(self, d):
         """Trigger feature: some, but not all, fibers at depth d hold no
         non-default leaf (the library's isEmpty())."""
         fs = R.fibers_at(self.spec, self.depth, d)
-        e = [not tree_content(s, self.depth - d) for _, s in fs]
+        e = [not self.tc(s, self.depth - d) for _, s in fs]
         if d > 0 and any(e) and not all(e):
             return {"some_fiber_empty_at_depth"}
         return set()
+
+    def placeholder(self, l, style=None):
+        """Sub-family "placeholder-default": flatten / merge of >= 3 levels over a tree with a stored empty fiber
+        below the root and above the leaf rank, when the leaf default is not 0 or the style is linear or pair."""
+        if l < 3 or not R.has_empty_interior(self.spec, self.depth):
+            return None
+        return "placeholder-default" if self.default != 0 or style in ("linear", "pair") else None
+
+    def gate(self, sub, label):
+        """Run a sub-case?  Sub-cases of a sub-family named in PENDING belong to the pending plan only
+        (`./check C09 --only pending`), all others to run() only."""
+        cond = sub in PENDING
+        if cond != self.pending:
+            if cond:
+                core.CUR.path("left-to-pending:%s:%s" % (label, sub))
+            return False
+        return True
 
     def V(self, fam, sym, feats, exp, obs):
         self.out.append((fam, sym, self.base | set(feats), exp, {"call": self.desc, "observed": obs}))
@@ -165,7 +245,12 @@ class Chk:
             m = mirror(res)
             if m:
                 self.V(fam, "mirror", set(feats) | {"mirror:" + m}, None, m)
-        got = content(root)
+            if self.default != 0:
+                # a point is a coordinate whose value differs from the leaf default: the result must keep it
+                dv = _unbox(res.getDefault())
+                if dv != self.default:
+                    self.V(fam, "leaf-default", feats, self.default, repr(dv))
+        got = content(root, self.default)
         if got != exp:
             f2 = set(feats)
             if model is not None:
@@ -175,6 +260,16 @@ class Chk:
             self.V(fam, what, f2, _show(exp), _show(got))
         core.CUR.outcome((fam, tuple(sorted(got.items(), key=repr))))
         return res
+
+
+def _unbox(p):
+    for _ in range(64):          # bounded: a box may (wrongly) contain itself
+        if not isinstance(p, Payload):
+            break
+        p = p.value
+    else:
+        return "CYCLIC-OR-DEEPLY-NESTED-BOX"
+    return p
 
 
 def _show(d):
@@ -205,6 +300,8 @@ def _pf(d=None, l=None):
 def g_swizzle(k):
     D, C = k.depth, k.C
     cur = core.CUR
+    if k.pending:
+        return
     if k.form != "f":
         ids = _ids(D)
         for perm in itertools.permutations(range(D)):
@@ -238,7 +335,7 @@ def g_swizzle(k):
         # below every fiber it is applied to: the library's isEmpty()), swapRanksBelow deeper
         for d in range(D - 1):
             tops = R.fibers_at(k.spec, D, d)
-            if not tops or any(not tree_content(s, D - d) for _, s in tops):
+            if not tops or any(not k.tc(s, D - d) for _, s in tops):
                 cur.path("F.swap:skipped-precondition")
                 continue
             feats = _pf(d)
@@ -272,6 +369,11 @@ def g_flatten(k):
                 continue
             feats = _pf(d, l) | {"style:" + style}
             k.par = "depth=%d levels=%d style=%s" % (d, l, style)
+            pend = k.placeholder(l, style)
+            if not k.gate(pend, "flatten"):
+                continue
+            if pend:
+                feats.add("sub:" + pend)
             if style in ("absolute", "relative"):
                 if R.rank_collides(R.stored_prefixes(k.spec, D, d + l + 1), d, l, style, dims):
                     cur.path("flatten:%s:collision-skipped" % style)
@@ -298,7 +400,7 @@ def g_flatten(k):
                     # Fiber.unflattenRanks asserts a coordinate in every fiber
                     # it is applied to (flattening drops default-valued leaves)
                     tops = R.fibers_at(k.spec, D, d)
-                    if tops and all(tree_content(s, D - d) for _, s in tops):
+                    if tops and all(k.tc(s, D - d) for _, s in tops):
                         if d == 0:
                             k.run("F.unflattenRanks", feats, lambda: r.unflattenRanks(levels=l), C, D,
                                   what="roundtrip-content")
@@ -327,13 +429,33 @@ def g_merge(k):
     for d, l in R.legal_flatten(D):
         for style in ("absolute", "relative"):
             coll = R.collides(list(C), d, l, style, dims)
-            cur.path("merge:collision" if coll else "merge:no-collision")
+            # two stored sub-fibers (not leaves) of the lowest merged rank land on one coordinate
+            fibcoll = d + l + 1 < D and R.rank_collides(R.stored_prefixes(k.spec, D, d + l + 1), d, l, style, dims)
+            if not k.pending:
+                cur.path("merge:collision" if coll else "merge:no-collision")
             for name, fn, ref in MERGE_FNS:
                 feats = _pf(d, l) | {"style:" + style, "fn:" + name}
                 k.par = "depth=%d levels=%d style=%s merge_fn=%s" % (d, l, style, name if fn else None)
+                # does reducing a value with the leaf default leave it unchanged?  (always for leaf default 0)
+                dv = k.default
+                neutral = ref([dv, dv]) == dv and all(ref([v, dv]) == v == ref([dv, v]) for v in set(C.values()))
+                # sub-families kept out of run() (PENDING_PLAN), all with a leaf default != 0
+                pend = k.placeholder(l)                 # levels >= 3 over a stored empty interior fiber
+                if pend:
+                    pass
+                elif fibcoll and not neutral:
+                    pend = "phantom-default"            # sub-fibers collide and fn(value, default) != value
+                elif fibcoll and dv != 0 and l >= 2:
+                    pend = "merged-fiber-default"       # sub-fibers collide below a further merged level
+                if not k.gate(pend, "merge"):
+                    continue
+                if pend:
+                    feats.add("sub:" + pend)
                 if coll:
                     feats.add("collision")
-                exp = R.image_merge(C, d, l, style, dims, ref)
+                if fibcoll:
+                    feats.add("sub-fiber-collision")
+                exp = R.image_merge(C, d, l, style, dims, ref, k.default)
                 if k.form != "f":
                     k.run("T.mergeRanks", feats,
                           lambda: k.fresh().mergeRanks(depth=d, levels=l, coord_style=style, merge_fn=fn),
@@ -438,6 +560,8 @@ def g_update(k):
 
 
 GROUP_FN = {"swizzle": g_swizzle, "flatten": g_flatten, "merge": g_merge, "split": g_split, "update": g_update}
+NZ_GROUPS = ("swizzle", "flatten", "merge")
+NZ_CELLS = "-z0v"       # absent / stored 0 (a value: the default is not 0) / explicit default / position-tagged value
 
 
 def case_tree(case):
@@ -449,6 +573,39 @@ def case_tree(case):
     for f in sorted(tree_features(spec, len(dims))):
         core.CUR.path("tree:" + f)
     return k.out
+
+
+def case_nz(case):
+    """Non-zero leaf default: (dims, spec, form, group, default, sub); sub == "pending" runs only the sub-cases kept
+    out of run() (Chk.gate), sub == "" all the others."""
+    dims, spec, form, group, default, sub = case
+    k = Chk(spec, dims, form, default=default, pending=(sub == "pending"))
+    GROUP_FN[group](k)
+    if len(k.C) >= 2:
+        core.CUR.nt("nz:" + group)
+    if any(v == 0 for v in k.C.values()):
+        core.CUR.path("nz:tree:stored-zero-is-a-point")
+    for f in sorted(tree_features(spec, len(dims))):
+        core.CUR.path("nz:tree:" + f)
+    return k.out
+
+
+def shard_nz(acc, shard, nshards, params):
+    name, forms, groups, defaults, sub, deadline = params
+    dims, specs = _universe(name)
+
+    def gen():
+        for spec in specs:
+            amb = R.has_empty_interior(spec, len(dims))
+            for default in defaults:
+                for form in forms:
+                    if form == "f" and amb:
+                        continue        # unowned empty interior fiber: its leaf default is not defined (ASSUMPTIONS)
+                    for g in groups:
+                        yield (dims, spec, form, g, default, sub)
+    drive(acc, "nz", case_nz, gen(), shard, nshards,
+          family="%s%s[%s; leaf default %s]" % ("pending:" if sub else "", name, "+".join(forms),
+                                                "/".join(map(str, defaults))), deadline=deadline)
 
 
 # ---------------------------------------------------------------------------
@@ -469,7 +626,7 @@ def shard_compose(acc, shard, nshards, params):
                family=label, deadline=deadline)
 
 
-CASES = {"tree": case_tree, "compose": case_compose}
+CASES = {"tree": case_tree, "compose": case_compose, "nz": case_nz}
 
 
 # ---------------------------------------------------------------------------
@@ -490,13 +647,38 @@ def _universe(name):
         return (2, 2, 2, 2), R.t4c_specs((2, 2, 2, 2), at_most=4, at_least=15)
     if name == "T4c(3,1,2,1;<=3)":
         return (3, 1, 2, 1), R.t4c_specs((3, 1, 2, 1), at_most=3)
+    if name.startswith("NZ("):
+        dims = tuple(int(x) for x in name[3:name.index(";")].split(","))
+        return dims, R.tn_specs(dims, name[name.index(";") + 1:-1])
     raise ValueError(name)
 
 
 # Three upper coordinates whose payloads are fibers of fibers collide under mergeRanks(depth=0, levels=1,
 # 'absolute' / 'relative') (minimal: points (0,0,1,0), (1,0,1,0), (2,0,0,0)): found by the round-4 builder on the
 # unchanged tree (TypeError in Fiber._mergeToFibertree), repaired by fix fb9f833; part of both tiers since.
-PENDING_PLAN = [("T4c(3,1,2,1;<=3)", ("ts", "te", "f"), ("merge",), None)]
+REPAIRED_PLAN = [("T4c(3,1,2,1;<=3)", ("ts", "te", "f"), ("merge",), None)]
+
+# Non-zero leaf default (cells NZ_CELLS) and 4-rank trees with empty interior fibers: (universe, forms, groups, defaults).
+# The sub-cases of the sub-families named in PENDING are left out (Chk.gate) and run through PENDING_PLAN instead.
+_TF = ("ts", "f")
+_TEF = ("ts", "te", "f")
+NZ_QUICK = [("NZ(2,2;-z0v)", _TEF, NZ_GROUPS, (7, -1)),
+            ("NZ(2,1,2;-z0v)", _TF, NZ_GROUPS, (7, -1)),
+            ("NZ(1,2,1,2;-z0v)", _TF, ("flatten", "merge"), (7, -1)),
+            ("NZ(1,2,1,2;-0v)", _TF, ("flatten", "merge"), (0,))]
+NZ_THOROUGH = [("NZ(2,2;-z0v)", _TEF, NZ_GROUPS, (7, -1)),
+               ("NZ(3,2;-z0v)", _TEF, NZ_GROUPS, (7, -1)),
+               ("NZ(2,1,2;-z0v)", _TEF, NZ_GROUPS, (7, -1)),
+               ("NZ(2,2,1;-z0v)", _TEF, NZ_GROUPS, (7, -1)),
+               ("NZ(1,2,1,2;-z0v)", _TEF, NZ_GROUPS, (7, -1)),
+               ("NZ(2,1,2,1;-z0v)", _TF, NZ_GROUPS, (7, -1)),
+               ("NZ(1,2,1,2;-0v)", _TEF, ("flatten", "merge"), (0,)),
+               ("NZ(2,1,2,1;-0v)", _TEF, ("flatten", "merge"), (0,))]
+# `./check C09 --only pending`: only the sub-cases of the PENDING sub-families (not part of run())
+PENDING_PLAN = [("NZ(2,1,2;-z0v)", _TF, ("merge",), (7, -1)),
+                ("NZ(1,2,1,2;-z0v)", _TF, ("flatten", "merge"), (7, -1)),
+                ("NZ(1,2,1,2;-0v)", _TF, ("flatten",), (0,)),
+                ("NZ(2,1,2,1;-0v)", ("ts",), ("flatten",), (0,))]
 
 
 def _is_empty_spec(spec):
@@ -541,15 +723,29 @@ def run(ctx):
                 ("T2(3,3)", allf, GROUPS, None),
                 ("T3(2,2,2)", allf, GROUPS, None),
                 ("T4c(2,2,2,2;<=4|>=15)", ("ts", "f"), GROUPS, 900)]
-    plan += list(PENDING_PLAN)
+    plan += list(REPAIRED_PLAN)
+    nzplan = [p + ("",) for p in (NZ_QUICK if q else NZ_THOROUGH)]
     only = getattr(ctx, "only", None)
     if only and "pending" in only:
-        plan = list(PENDING_PLAN)
+        plan = []
+        nzplan = [p + ("pending",) for p in PENDING_PLAN] if PENDING else []
         only = None
     from mc import compose as _cd
     ctx.bounds = {
         "compose": _cd.describe(q),
         "universes": [p[0] + " as " + "/".join(p[1]) for p in plan],
+        "non_zero_default": {
+            "universes": ["%s as %s, leaf default %s, groups %s%s" % (p[0], "/".join(p[1]), "/".join(map(str, p[3])),
+                                                                      "/".join(p[2]), " (PENDING sub-cases only)" if p[4] else "")
+                          for p in nzplan],
+            "trees": "NZ(extents;cells): every tree of that depth over the leaf cells '-' absent, 'z' stored 0, '0' "
+                     "explicit default, 'v' position-tagged value; every fiber may be absent or stored empty; leaf "
+                     "default 7 / -1 (with leaf default 0 and cells -0v: the 4-rank trees with empty interior fibers "
+                     "the other universes lack); raw form only for trees without an empty interior fiber",
+            "judged": "content read with the leaf default (a stored 0 is a point), Tensor results keep the leaf default; "
+                      "swizzle / swap / flatten+unflatten / merge with the parameter sets of the groups below",
+            "kept_out_of_run": sorted(PENDING),
+        },
         "forms": "ts = Tensor.fromFiber with declared shape, te = Tensor.fromFiber with estimated shape, f = raw fiber "
                  "tree with Fiber(shape=); the empty tree additionally as Tensor(rank_ids=..., shape=...) (tn) and "
                  "Tensor(rank_ids=...) (tm)",
@@ -569,3 +765,7 @@ def run(ctx):
         if only and not any(name.startswith(o) for o in only):
             continue
         ctx.shards(shard_tree, (name, forms, groups, None if deadline is None else time.time() + deadline))
+    for name, forms, groups, defaults, sub in nzplan:
+        if only and not any(name.startswith(o) for o in only):
+            continue
+        ctx.shards(shard_nz, (name, forms, groups, defaults, sub, time.time() + (120 if q else 900)))
